@@ -2,7 +2,7 @@
 Globals.lean: for sfs_generator/gasol_optimization.py and ir_block.py, the module-level state, which names are
 (re)initialised at the entry of a block (init_globals and the prologue of smt_translate_block) and which are
 read by the block pipeline."""
-import ast, os, sys
+import ast, os, sys, warnings
 
 REPO = os.environ.get("GASOL_REPO", "/repo")
 ROOT = os.path.dirname(os.path.dirname(os.path.abspath(__file__)))
@@ -174,6 +174,108 @@ def shared_state():
     return cls_rows, def_rows
 
 
+SETMETH = {"difference", "union", "intersection", "symmetric_difference"}
+INSENS = {"sorted", "set", "frozenset", "len", "sum", "min", "max", "any", "all"}
+
+def _scan_set_iteration(path, rel):
+    with warnings.catch_warnings():
+        warnings.simplefilter("ignore")
+        try: tree = ast.parse(open(path).read())
+        except SyntaxError: return []
+    parents = {}
+    for n in ast.walk(tree):
+        for c in ast.iter_child_nodes(n):
+            parents[c] = n
+    out = []
+    # class attributes that hold sets
+    set_attrs = set()
+    def is_set_expr(e, names):
+        if isinstance(e, (ast.Set, ast.SetComp)): return True
+        if isinstance(e, ast.Call):
+            if isinstance(e.func, ast.Name) and e.func.id in ("set", "frozenset"): return True
+            if isinstance(e.func, ast.Attribute) and e.func.attr in SETMETH: return True
+            if isinstance(e.func, ast.Attribute) and e.func.attr == "copy" and is_set_expr(e.func.value, names): return True
+        if isinstance(e, ast.BinOp) and isinstance(e.op, (ast.Sub, ast.BitOr, ast.BitAnd, ast.BitXor)):
+            return is_set_expr(e.left, names) or is_set_expr(e.right, names)
+        if isinstance(e, ast.Name): return e.id in names
+        if isinstance(e, ast.Attribute) and isinstance(e.value, ast.Name) and e.value.id == "self": return e.attr in set_attrs
+        if isinstance(e, ast.IfExp): return is_set_expr(e.body, names) or is_set_expr(e.orelse, names)
+        return False
+    # fixpoint for self attributes
+    for _ in range(3):
+        for n in ast.walk(tree):
+            if isinstance(n, (ast.Assign, ast.AnnAssign)) and n.value is not None:
+                for t in (n.targets if isinstance(n, ast.Assign) else [n.target]):
+                    if isinstance(t, ast.Attribute) and isinstance(t.value, ast.Name) and t.value.id == "self" and is_set_expr(n.value, set()):
+                        set_attrs.add(t.attr)
+    funcs = [n for n in ast.walk(tree) if isinstance(n, (ast.FunctionDef, ast.Lambda))] + [tree]
+    seen = set()
+    for f in funcs:
+        names = set()
+        body_nodes = list(ast.walk(f))
+        for _ in range(3):
+            for n in body_nodes:
+                if isinstance(n, (ast.Assign, ast.AnnAssign)) and n.value is not None and is_set_expr(n.value, names):
+                    for t in (n.targets if isinstance(n, ast.Assign) else [n.target]):
+                        if isinstance(t, ast.Name): names.add(t.id)
+                # parameters annotated Set[...]
+            if isinstance(f, ast.FunctionDef):
+                for a in f.args.args:
+                    if a.annotation is not None and "Set" in ast.unparse(a.annotation): names.add(a.arg)
+        def insensitive_ctx(node):
+            # node is the iteration expression or a comprehension; climb: directly an argument of an insensitive call?
+            p = parents.get(node)
+            while isinstance(p, (ast.GeneratorExp, ast.ListComp, ast.comprehension, ast.Starred)):
+                node, p = p, parents.get(p)
+            if isinstance(p, ast.Call) and isinstance(p.func, ast.Name) and p.func.id in INSENS and node in p.args:
+                # a sort / minimum / maximum by a key resolves ties by the order it is given
+                return not any(k.arg == "key" for k in p.keywords)
+            if isinstance(p, ast.Compare) and any(isinstance(o, (ast.In, ast.NotIn)) for o in p.ops): return True
+            return False
+        for n in body_nodes:
+            site = None
+            if isinstance(n, ast.For) and is_set_expr(n.iter, names): site = ("for", n.iter, n)
+            elif isinstance(n, ast.comprehension) and is_set_expr(n.iter, names):
+                comp = parents.get(n)
+                if isinstance(comp, ast.SetComp): continue
+                site = ("comprehension", n.iter, comp)
+            elif isinstance(n, ast.Call) and isinstance(n.func, ast.Name) and n.func.id in ("list", "tuple", "enumerate", "zip", "map", "filter", "iter", "next") and n.args and is_set_expr(n.args[-1] if n.func.id in ("map","filter") else n.args[0], names):
+                site = (n.func.id, n.args[0], n)
+            elif isinstance(n, ast.Call) and isinstance(n.func, ast.Name) and n.func.id in ("sorted", "min", "max") and n.args and is_set_expr(n.args[0], names) \
+                    and any(k.arg == "key" for k in n.keywords):
+                site = (n.func.id + "-by-key", n.args[0], n)
+            elif isinstance(n, ast.Call) and isinstance(n.func, ast.Attribute) and n.func.attr == "join" and n.args and is_set_expr(n.args[0], names):
+                site = ("join", n.args[0], n)
+            elif isinstance(n, ast.Call) and isinstance(n.func, ast.Attribute) and n.func.attr == "pop" and not n.args and is_set_expr(n.func.value, names):
+                site = ("pop", n.func.value, n)
+            if site is None: continue
+            kind, it, node = site
+            key = (getattr(node, "lineno", getattr(it, "lineno", 0)), kind)
+            if key in seen: continue
+            seen.add(key)
+            ins = insensitive_ctx(node if kind != "for" else it) if kind != "for" else False
+            fname = getattr(f, "name", "<module>")
+            out.append((rel, fname, kind, ast.unparse(it)[:60], ins, getattr(it, "lineno", 0)))
+    return out
+
+
+
+def iteration_sites():
+    """places where the elements of a set are visited in the set's own order (for loops, comprehensions that do not build a set,
+    list()/tuple()/enumerate()/zip()/map()/filter()/iter()/next()/join() over a set, set.pop()): [site, the consumer is insensitive to
+    the order (sorted/set/len/sum/min/max/any/all/membership)].  A site is file:function:kind:expression (no line numbers)."""
+    rows = []
+    for d, _, fs in os.walk(REPO):
+        if any(x in d for x in ("/tests", "/.git", "/examples", "/scripts", "/bin")):
+            continue
+        for f in fs:
+            if f.endswith(".py"):
+                path = os.path.join(d, f)
+                for rel, fname, kind, expr, ins, _line in _scan_set_iteration(path, os.path.relpath(path, REPO)):
+                    rows.append(("%s:%s:%s:%s" % (rel, fname, kind, expr.replace('"', "'").replace("\\", "/")), ins))
+    return sorted(set(rows))
+
+
 def lean_list(xs):
     return "[" + ", ".join('"%s"' % x for x in xs) + "]"
 
@@ -199,6 +301,11 @@ def generate():
     out.append("def mutableDefaults : List (String × Bool) := [" + ", ".join('("%s", %s)' % (n, b(m)) for n, m in def_rows) + "]")
     out.append("")
     summary["shared"] = {"class_attributes": len(cls_rows), "mutable_defaults": len(def_rows)}
+    sites = iteration_sites()
+    out.append("/-- places where a set is visited in its own order: (file:function:kind:expression, consumer insensitive to the order) -/")
+    out.append("def setIterationSites : List (String × Bool) := [" + ", ".join('("%s", %s)' % (n, b(i)) for n, i in sites) + "]")
+    out.append("")
+    summary["set_iteration_sites"] = len(sites)
     out.append("end GasolVerif.Generated")
     path = os.path.join(ROOT, "lean", "GasolVerif", "Generated", "Globals.lean")
     os.makedirs(os.path.dirname(path), exist_ok=True)
